@@ -826,7 +826,118 @@ def S9(ctx):
     ctx.floor("S9", n, 8, "wake loops (mutex, rwlock, mpsc, notify, schedule) + block loops (mutex, rwlock x2, mpsc)")
 
 
+# ---------------------------------------------------------------------------------------------------------------------------
+# S10 - a non-blocking acquisition is never disabled
+
+OPERATION = "rt::object::Operation"
+
+
+def _registrations(prog, fk, env, depth=0, seen=frozenset()):
+    """All `Operation` records a call of fk may store as the calling thread's pending operation: list of {field: value}, value =
+    canonical constant | None (not a constant).  Arguments are propagated through the forwarding layers (`branch_*`,
+    `set_action`, closures handed to rt::branch), so the answer does not depend on how those layers are cut."""
+    if depth > 6 or fk in seen or fk not in prog.fns:
+        return []
+    out = []
+    seen = seen | {fk}
+    for bk in [fk] + list(prog.closures_of(fk)):
+        f = prog.fns[bk]
+        if f.j.get("stub"):
+            continue
+        body = f.body
+
+        def val(e):
+            e = strip(deep(prog, bk, e))
+            if e[0] == "const":
+                return canon(e)
+            if e[0] == "agg" and e[2] and isinstance(e[1], str) and "{closure" not in e[1]:
+                inner = [val(x) for x in e[3]]
+                return "%s(%s)" % (str(e[2]).split("::")[-1], ",".join(str(x) for x in inner)) if inner else str(e[2]).split("::")[-1]
+            if e[0] == "param" and bk == fk:
+                return env.get(e[1])
+            if e[0] == "call" and len(e[2]) == 1 and e[1].split("::")[-1] in ("into", "from"):
+                return val(e[2][0])
+            if e[0] == "cast":
+                return val(e[2])
+            return None
+        for b, blk in enumerate(body.blocks):
+            if blk["cleanup"]:
+                continue
+            for st in blk["stmts"]:
+                if st["k"] == "=" and st["rv"]["k"] == "agg" and st["rv"].get("adt") == OPERATION:
+                    names = st["rv"].get("field_names") or []
+                    rec = {}
+                    for i, o in enumerate(st["rv"]["ops"]):
+                        rec[names[i] if i < len(names) else str(i)] = val(body.expr_of_operand(o))
+                    out.append(rec)
+            t = blk["term"]
+            if t["k"] != "call" or is_noise(t):
+                continue
+            inst = prog.ident(bk)
+            c = prog.insts[inst].calls.get(b) if inst is not None else None
+            k = prog.callee_key(c) if c else None
+            if k is None or k not in prog.fns or prog.fns[k].kind == "Closure":
+                continue
+            env2 = {i + 1: val(body.expr_of_operand(a)) for i, a in enumerate(t["args"])}
+            out += _registrations(prog, k, env2, depth + 1, seen)
+    return out
+
+
+def S10(ctx):
+    """A non-blocking acquisition (`try_lock`, `try_read`, `try_write`) is never disabled: wherever an acquire marks the other
+    threads pending on the lock as Blocked, the condition reads a component of the pending `Operation` that tells a waiting
+    acquisition from a non-blocking one.  (A thread parked at the branch point of a try operation does not wait for the lock; if
+    it is blocked, `let g = m.lock(); t.join()` with `t: m.try_lock()` is reported as a deadlock that cannot happen.)"""
+    prog = ctx.prog
+    from .guardvocab import _tokens
+    kinds = {
+        "mutex": (["rt::mutex::Mutex::try_acquire_lock"], ["rt::mutex::Mutex::acquire_lock"], ["rt::mutex::Mutex::post_acquire"]),
+        "rwlock": (["rt::rwlock::RwLock::try_acquire_read_lock", "rt::rwlock::RwLock::try_acquire_write_lock"],
+                   ["rt::rwlock::RwLock::acquire_read_lock", "rt::rwlock::RwLock::acquire_write_lock"],
+                   ["rt::rwlock::RwLock::post_acquire_read_lock", "rt::rwlock::RwLock::post_acquire_write_lock"]),
+    }
+    n = 0
+    for kind, (tries, blocks, posts) in kinds.items():
+        regs_t, regs_b = [], []
+        for fk in tries + blocks:
+            if prog.fn(fk) is None:
+                ctx.missing("S10", fk)
+        for fk in tries:
+            regs_t += _registrations(prog, fk, {})
+        for fk in blocks:
+            regs_b += _registrations(prog, fk, {})
+        if not regs_t or not regs_b:
+            ctx.missing("S10", kind, "the pending-operation records of the try / blocking entry points were not found")
+            continue
+        fields = set().union(*[set(r) for r in regs_t + regs_b])
+        dist = sorted(f for f in fields if all(r.get(f) is not None for r in regs_t + regs_b) and
+                      not ({r[f] for r in regs_t} & {r[f] for r in regs_b}))
+        for post in posts:
+            sites = [s_ for s_ in _transition_sites(prog, "set_blocked") if enclosing_fn(s_["fn"]) == post and
+                     not receiver_is_active(prog.fns[s_["fn"]].body, s_["term"])]
+            for s_ in sites:
+                n += 1
+                body = prog.fns[s_["fn"]].body
+                toks = set()
+                for (ge, pol, v, sb) in guard_atoms(body, s_["bb"]):
+                    toks |= _tokens(prog, s_["fn"], ge)
+                for sb2 in body.control_deps(s_["bb"]):
+                    toks |= _tokens(prog, s_["fn"], body.expr_of_operand(body.term(sb2)["op"]))
+                used = [f for f in dist if "%s.%s" % (OPERATION, f) in toks]
+                if used:
+                    ctx.ok("S10", post, "threads are blocked depending on `Operation.%s`, which is %s for the try forms and %s for the waiting forms" %
+                           (used[0], sorted({r[used[0]] for r in regs_t}), sorted({r[used[0]] for r in regs_b})), [site_str(prog, s_["fn"], s_["bb"])])
+                else:
+                    ctx.bad("S10", post, "%s marks every thread pending on the lock as Blocked, including one pending at a non-blocking try "
+                            "operation: the pending operation of the try forms %s is not distinguishable from that of the waiting forms in any "
+                            "component the condition reads (%s). A try operation never waits; blocked, it makes `let g = lock(); t.join()` with "
+                            "`t: try_lock()` a false deadlock" %
+                            (post.split("::")[-1], [t_.split("::")[-1] for t_ in tries],
+                             "distinguishing components: %s" % (dist or "none")), site_str(prog, s_["fn"], s_["bb"]))
+    ctx.floor("S10", n, 3, "block loops of mutex post_acquire, rwlock post_acquire_read_lock / post_acquire_write_lock")
+
+
 def run_all(ctx, which):
-    table = dict(S1=S1, S2=S2, S3=S3, S4=S4, S5=S5, S5b=S5b, S6=S6, S7=S7, S8=S8, S9=S9, D1=D1, D2=D2)
+    table = dict(S1=S1, S2=S2, S3=S3, S4=S4, S5=S5, S5b=S5b, S6=S6, S7=S7, S8=S8, S9=S9, S10=S10, D1=D1, D2=D2)
     for w in which:
         table[w](ctx)
